@@ -210,6 +210,55 @@ def scenario(exe, shim, root, seed, stats):
     a.destroy()
     return out or None
 
+def autosave_scrub(exe, shim, root, seed):
+    """books across an intermediate autosave: `autosave 1` (GB) with blocks of 8 MiB on 8 disks makes the scrub save the
+    content file once half way; whatever it books AFTER that save (refreshed times, cleared never-scrubbed marks, a bad
+    mark for a silent error in a late stripe) must be in the content file it leaves, and the follow-up fix -e / scrub -p bad
+    must work from it"""
+    rng = e2e.Rng(seed)
+    nd, kib, nblk = 8, 8192, 32
+    a = e2e.Arr(root, exe, ndisks=nd, nparity=1, block_kib=kib, ncontent=1, hashsize=16, autosave=1)
+    limit = 10**9 // (nd * a.block)
+    T0, T1 = NOW - 30 * 86400, NOW
+    for d in a.disks:
+        p = a.path(d, 'big_%s.bin' % d)
+        with open(p, 'wb') as f:
+            for b in range(nblk):
+                f.seek(b * a.block); f.write(rng.bytes(24))
+            f.truncate(nblk * a.block)
+        os.utime(p, ns=(1_600_000_000_000_000_123, 1_600_000_000_000_000_123))
+    r = a.cmd('sync', env={'LD_PRELOAD': shim, 'VERIF_NOW': str(T0)}, timeout=600)
+    if r.rc != 0:
+        a.destroy(); return None
+    victim = nblk - 3                      # a stripe processed after the last autosave point
+    p = a.path('d1', 'big_d1.bin'); st = os.stat(p)
+    with open(p, 'r+b') as f:
+        f.seek(victim * a.block + 5); c = f.read(1); f.seek(victim * a.block + 5); f.write(bytes([c[0] ^ 0x40]))
+    os.utime(p, ns=(st.st_mtime_ns, st.st_mtime_ns))
+    r = a.cmd('scrub', '-p', 'full', env={'LD_PRELOAD': shim, 'VERIF_NOW': str(T1)}, timeout=600)
+    dec = fx.decode(a)
+    problem = None
+    cfg = 'autosave 1 (GB), %d disks, blocks of %d KiB, %d stripes (one autosave after %d), silent error in stripe %d of d1' % (nd, kib, nblk, limit, victim)
+    if not dec.ok:
+        problem = 'content file not loadable after the scrub'
+    elif r.rc == 0:
+        problem = 'scrub -p full exits 0 over a silent error'
+    else:
+        stale = [pos for pos in range(nblk) if pos != victim and (dec.info.get(pos) is None or dec.info[pos][1] != T1 or dec.info[pos][2] or dec.info[pos][4])]
+        vi = dec.info.get(victim)
+        if stale:
+            problem = '[autosave-books] %d stripes verified correct by the scrub are not booked in the content file it leaves (time %s instead of %d, or still marked never-scrubbed): stripes %s' % (len(stale), dec.info.get(stale[0]) and dec.info[stale[0]][1], T1, stale[:8])
+        elif vi is None or not vi[2]:
+            problem = '[autosave-books] the silent error of stripe %d was reported but the stripe is not marked bad in the content file' % victim
+        else:
+            f1 = a.cmd('fix', '-e', timeout=600)
+            s2 = a.cmd('scrub', '-p', 'bad', env={'LD_PRELOAD': shim, 'VERIF_NOW': str(T1 + 60)}, timeout=600)
+            dec2 = fx.decode(a)
+            if f1.rc != 0 or s2.rc != 0 or not dec2.ok or any(i[2] for i in dec2.info.values()):
+                problem = 'fix -e (exit %d) + scrub -p bad (exit %d) do not clear the bad mark' % (f1.rc, s2.rc)
+    a.destroy()
+    return ('%s; %s' % (problem, cfg), '%s\n%s\nscrub output tail:\n%s' % (problem, cfg, r.out[-600:])) if problem else None
+
 def main(tier, seed):
     chk = vlib.Check('C15', 'proof', tier, seed)
     chk.assumptions = ['clock frozen by the shim (time() = fixed value) so that ages are exact', 'per-stripe info synthesized by Lean decode -> edit -> Lean encode of a real content file']
@@ -237,6 +286,10 @@ def main(tier, seed):
             k += 1
             if k <= 3:
                 chk.violation('C15 ' + r[0][0], r[0][1], True, 'plan')
+    av = autosave_scrub(exe, shim, os.path.join(vlib.scratch(), 'autosave'), seed * 100000 + 79000)
+    stats['autosave_scrub'] = 'violation' if av else 'ok'
+    if av:
+        chk.violation('C15 ' + av[0], av[1], True, 'autosave')
     for o in chk.obligations:
         if not o[1]:
             chk.violation('C15 static obligation failed: ' + o[0], o[0] + '\n' + o[2], False, 'static')
